@@ -24,10 +24,12 @@ from props import atp_hello as H
 SPECS = ["ATPServerEnvMC", "ATPTrace", "ATPHelloMC", "ATPHelloTraceMC"]
 PKGS = ["./cmd/atp"]
 
-BAD_VARIANTS = [("bad", "unknown_id"), ("ws", "no_run"), ("ws", "no_step"), ("ws", "payload_type"), ("sig", "no_run"),
+BAD_VARIANTS = [("bad", "unknown_id"), ("ws", "no_run"), ("ws", "no_step"), ("ws", "no_run_key"), ("ws", "payload_type"), ("sig", "no_run"),
+                ("sig", "no_run_key"),
                 ("sig", "payload_type"), ("bad", "error_id"), ("bad", "workdone_id"), ("bad", "missing_fields")]
 JUNK_VARIANTS = ["reserved", "int", "array", "x1c"]
-ERR_BEH = [("err", ""), ("baddata", ""), ("ok", "unknown_step"), ("ok", "bad_input")]
+ERR_BEH = [("err", ""), ("baddata", ""), ("ok", "unknown_step"), ("ok", "bad_input"), ("panic_int", ""), ("panic_err", ""),
+           ("panic_struct", ""), ("panic_nilmap", "")]
 OK_BEH = ["ok", "declared_error"]
 BADSIG_VARIANTS = ["unknown_signal", "bad_data"]
 
@@ -150,6 +152,18 @@ def judge(ctx, sc, rr):
     for o in sc["script"]:
         if o.get("op") == "send" and o.get("kind") == "ws" and o.get("variant") == "payload_type":
             malformed[o["run"]] = malformed.get(o["run"], 0) + 1
+    # a work-start that names no run or no step is reported (a step-fatal error without run ID), never started; the
+    # input must not have ended or turned to garbage before it (then the server legitimately never reads it)
+    runless, clean = 0, True
+    for o in sc["script"]:
+        if o.get("op") == "eof" or o.get("op") == "partial" or (o.get("op") == "send" and o.get("kind") in ("junk", "cd")):
+            clean = False
+        if clean and o.get("op") == "send" and o.get("kind") == "ws" and o.get("variant") in ("no_run", "no_run_key", "no_step"):
+            runless += 1
+    got = sum(1 for x in res.get("received") or [] if x == "err_step:")
+    if runless and not sc.get("cut_at") and got < runless:
+        ctx.violation(dict(kind="runless_work_start_not_reported", sent=min(runless, 3), reported=min(got, 3)),
+                      dict(scenario=sc, received=res.get("received"), accepted=acc, terminals=term))
     for r in set(acc) | set(term):
         lo, hi = acc.get(r, 0), acc.get(r, 0) + malformed.get(r, 0)
         if not (lo <= term.get(r, 0) <= hi):
@@ -212,7 +226,8 @@ def run(ctx):
     # every (work-start variant) x (signal variant) for the SAME run ID, in both orders, with the step finishing
     # before / after the signal and before / after the end of input: two-message interactions the random grammar
     # only reaches by luck (e.g. a rejected work-start followed by a valid signal for that run)
-    ws_kinds = [("ok", ""), ("declared_error", ""), ("panic", ""), ("err", ""), ("baddata", ""), ("ok", "unknown_step"), ("ok", "bad_input")]
+    ws_kinds = [("ok", ""), ("declared_error", ""), ("panic", ""), ("err", ""), ("baddata", ""), ("ok", "unknown_step"), ("ok", "bad_input"),
+                ("panic_int", ""), ("panic_err", ""), ("panic_struct", ""), ("panic_nilmap", "")]
     sig_kinds = ["", "unknown_signal", "bad_data"]
     for wi, (be, va) in enumerate(ws_kinds):
         for sv in sig_kinds:
@@ -223,6 +238,17 @@ def run(ctx):
             for name, script in (("ws_sig_fin", [ws, sg, fin, cd]), ("ws_fin_sig", [ws, fin, sg, cd]), ("sig_ws_fin", [sg, ws, fin, cd]),
                                  ("ws_sig_eof_fin", [ws, sg, dict(op="eof"), fin]), ("ws_sig_sig", [ws, sg, dict(sg), fin, cd])):
                 scen.append(dict(id="pair/%d-%s-%s" % (wi, sv or "valid", name), mode="server", cap=0, script=script))
+    # a message that carries a run ID followed by messages whose envelope has no run_id key (nothing of the previous
+    # message may show through), in both orders and for signals
+    for va in ("no_run", "no_run_key", "no_step"):
+        ws1 = dict(op="send", kind="ws", run="r1", beh="ok", variant="")
+        wsx = dict(op="send", kind="ws", run="r2", beh="ok", variant=va)
+        sgx = dict(op="send", kind="sig", run="r2", variant=va if va != "no_step" else "no_run", beh="ok")
+        fin = dict(op="finish", run="r1")
+        cd = dict(op="send", kind="cd", run="", variant="", beh="ok")
+        for name, script in (("after", [ws1, wsx, dict(wsx), fin, cd]), ("before", [wsx, ws1, fin, cd]), ("between", [ws1, wsx, fin, dict(wsx), cd]),
+                             ("sig_after", [ws1, sgx, fin, cd])):
+            scen.append(dict(id="runless/%s/%s" % (va, name), mode="server", cap=0, script=script))
     # bursts: more runs fail at the same moment than the error queue (3) and its handler can hold, while the client is
     # slow to read: every accepted work-start still gets exactly one terminal message once the client reads on
     burst = []
